@@ -8,6 +8,7 @@ import (
 //zzv:bound V1c = real validateCurves (incl. validateNoLoops -> tarjan.Connections) on 3 curve entries with fixed distinct ids, each linear / pid / function / none / two-kinds, function curves with 0..2 members each any of the 3 curve ids, an undefined id or empty: accepted only if every entry has exactly one kind, sensors are named and defined, function types are supported, every member is a defined curve other than itself, and the reference relation is acyclic (oracle: transitive closure over the symbolic 3x3 adjacency matrix); cycles of length 1..3, dangling references and every DAG over 3 nodes are inside the bound
 //zzv:bound V1d = real validateCurves on 2 curve entries with symbolic ids: duplicate curve ids are rejected
 //zzv:bound V1f = real validateFans on 1..2 fan entries, symbolic ids and curve references, any subset of back ends, controlAlgorithm nil / empty / direct (limit any int or none) / pid (any gains): accepted only if ids are distinct, exactly one backend, the curve reference is non-empty and defined, a direct limit is > 0 and pid gains are not all zero
+//zzv:bound V1w = real validateConfig on a small valid configuration with a defect injected in the sensors, curves or fans section (or none), with or without a command sensor / command fan, configuration file with any owner, group and mode: a defect in any section is rejected whatever the permission check says; an unsafe configuration file is rejected when command entries exist (C18 A4); a sound configuration is accepted
 //zzv:bound V3 = the struct images of the forms documented in README.md / fan2go.yaml (hwmon, file, cmd sensors and fans, linear min/max and steps, pid, function curves of every type nested two deep, controlAlgorithm 'pid' and 'direct' via the real UnmarshalText, direct with maxPwmChangePerCycle) are accepted
 //zzv:outside the YAML -> viper -> mapstructure loader (reflection); curve graphs with more than 3 nodes and cycles longer than 3; the JSON spelling of controlAlgorithm (encoding/json)
 //zzv:opts loopbound=400
@@ -269,4 +270,52 @@ func ZZ_C11_V3_DocumentedFormsAccepted() {
 	zzv.Assert(validateSensors(cfg) == nil, "V3.documented_sensors_accepted")
 	zzv.Assert(validateCurves(cfg) == nil, "V3.documented_curves_accepted")
 	zzv.Assert(validateFans(cfg) == nil, "V3.documented_fans_accepted")
+}
+
+// V1w: the whole validateConfig (sections + the configuration-file permission rule that applies
+// when command sensors/fans exist): a defect in any one section must surface whatever the other
+// sections and the permission check say.
+func ZZ_C11_V1w_WholeConfig() {
+	path := zzv.TempDir("cfg") + "/fan2go.yaml"
+	uid := zzv.Uint32("cfg.uid")
+	gid := zzv.Uint32("cfg.gid")
+	mode := zzv.Uint32("cfg.mode")
+	zzv.Assume(mode <= 0o777)
+	zzv.Assume(uid != 0xFFFFFFFF)
+	zzv.Assume(gid != 0xFFFFFFFF)
+	zzv.StatPut(path, true, uid, gid, mode)
+	cfg := Configuration{
+		Sensors: []SensorConfig{{ID: "s", File: &FileSensorConfig{Path: "/tmp/s"}}},
+		Curves:  []CurveConfig{{ID: "c", Linear: &LinearCurveConfig{Sensor: "s", Min: 40, Max: 80}}},
+		Fans:    []FanConfig{{ID: "f", Curve: "c", File: &FileFanConfig{Path: "/tmp/f"}}},
+	}
+	withCmd := zzv.Choice("cmdEntry", 3) // 0 none, 1 cmd sensor, 2 cmd fan
+	if withCmd == 1 {
+		cfg.Sensors = append(cfg.Sensors, SensorConfig{ID: "cs", Cmd: &CmdSensorConfig{Exec: "/bin/true"}})
+	}
+	if withCmd == 2 {
+		cfg.Fans = append(cfg.Fans, FanConfig{ID: "cf", Curve: "c", Cmd: &CmdFanConfig{SetPwm: &ExecConfig{Exec: "/bin/true"}, GetPwm: &ExecConfig{Exec: "/bin/true"}}})
+	}
+	defect := zzv.Choice("defect", 4) // 0 none, 1 sensors, 2 curves, 3 fans
+	switch defect {
+	case 1:
+		cfg.Sensors[0].HwMon = &HwMonSensorConfig{Platform: "p", Index: 1} // two back ends
+	case 2:
+		cfg.Curves[0].Linear.Sensor = "undefined"
+	case 3:
+		cfg.Fans[0].Curve = "undefined"
+	}
+	CurrentConfig = cfg
+	err := validateConfig(&CurrentConfig, path)
+	zzv.RecordB("accepted", err == nil)
+	safe := zzv.And(uid == 0, zzv.And(zzv.Not(zzv.And(gid != 0, mode&0o020 != 0)), mode&0o002 == 0))
+	if defect != 0 {
+		zzv.Assert(err != nil, "V1w.defect_in_any_section_is_rejected")
+	}
+	if withCmd != 0 {
+		zzv.Assert(zzv.Implies(zzv.Not(safe), err != nil), "V1w.unsafe_config_file_with_cmd_entries_rejected")
+	}
+	if defect == 0 {
+		zzv.Assert(zzv.Implies(zzv.Or(safe, withCmd == 0), err == nil), "V1w.sound_configuration_accepted")
+	}
 }
